@@ -39,11 +39,13 @@ RULE = ("schema-directed: for each constructed type and each of the 58 registere
         "random balanced tag runs; plus mutated (malformed) tag lists (9 mutation kinds) and synthetic "
         "schemas (well-formed and ill-formed). distinct = (stream, type, presence pattern / alternative / "
         "list length / boundary leaf / error kind); trivial cases are not counted separately")
-TRUSTED = ["lean/BacVerif/Model/Codec.lean is a hand transcription of Sequence/Choice/SequenceOf/ListOf/ArrayOf/"
+TRUSTED = ["lean/BacVerif/Model/Typed.lean (erase / typeVal: C01 leaves around the generic codec) tied by the `typed` stream",
+           "lean/BacVerif/Model/Codec.lean is a hand transcription of Sequence/Choice/SequenceOf/ListOf/ArrayOf/"
            "Any/AnyAtomic/NameValue/APCISequence encode+decode; tied by the streams above",
            "translator/c03.py (live introspection -> Gen/Schemas.lean); the compiled table is read back from "
            "the driver and compared with the live classes on every run",
-           "primitive leaves are opaque application-tag payloads here (their meaning is C01)",
+           "the generic codec handles leaves as application-tag payloads; their meaning is composed from C01 "
+           "(typed_erase, octets_roundtrip) and compared with the Python attribute values in the `typed` stream",
            "Annex F octets and parameter values are recalled from the standard (not available offline)"]
 ASSUMPTIONS = ["leaf payloads are the canonical ones produced by the primitive encoders (C01)",
                "character strings use encoding 0 (the Sequence attribute keeps only the str, not the encoding octet)"]
@@ -422,6 +424,75 @@ def tree(node, obj):
     raise core.Infra("tree: " + node.k)
 
 
+def sem_leaf(cls, v):
+    """what the Python attribute MEANS, in the vocabulary of C01's PrimVal"""
+    import struct
+    app = cls._app_tag
+    if app == 0:
+        return {"null": 0}
+    if app == 1:
+        return {"bool": bool(v)}
+    if app == 2:
+        return {"u": int(v)}
+    if app == 3:
+        return {"i": int(v)}
+    if app == 4:
+        return {"f32": int.from_bytes(struct.pack(">f", v), "big")}
+    if app == 5:
+        return {"f64": int.from_bytes(struct.pack(">d", v), "big")}
+    if app == 6:
+        return {"o": bytes(v).hex()}
+    if app == 7:
+        return {"s": [0, v.encode("utf-8").hex()]}
+    if app == 8:
+        return {"b": [int(x) for x in v]}
+    if app == 9:
+        return {"e": int(cls(v).get_long())}
+    if app == 10:
+        return {"d": [int(x) for x in v]}
+    if app == 11:
+        return {"t": [int(x) for x in v]}
+    if app == 12:
+        from bacpypes.primitivedata import ObjectIdentifier
+        t, i = ObjectIdentifier(v).get_tuple()
+        return {"oid": [int(t), int(i)]}
+    raise core.Infra("sem_leaf: %r" % (cls,))
+
+
+def sem_ref(ref, v):
+    if ref.k == "prim":
+        return {"p": sem_leaf(ref.cls, v)}
+    if ref.k == "anyAtomic":
+        return {"a": sem_leaf(type(v), v.value)}
+    return stree(ref.node, v)
+
+
+def stree(node, obj):
+    """the decoded object as a TYPED tree: leaves by meaning, not by payload"""
+    from bacpypes import constructeddata as cd
+    if node.k == "seq":
+        return {"seq": [None if getattr(obj, f.name, None) is None else sem_ref(f.ref, getattr(obj, f.name))
+                        for f in node.fields]}
+    if node.k == "choice":
+        for i, f in enumerate(node.fields):
+            v = getattr(obj, f.name, None)
+            if v is not None:
+                return {"ch": [i, sem_ref(f.ref, v)]}
+        return {"ch": None}
+    if node.k == "list":
+        items = obj if isinstance(obj, list) else obj.value[1:] if isinstance(obj, cd.Array) else obj.value
+        return {"list": [sem_ref(node.elem, x) for x in items]}
+    if node.k == "any":
+        return {"tags": [jtag(t) for t in obj.tagList.tagList]}
+    if node.k == "nameValue":
+        from bacpypes.primitivedata import CharacterString, Atomic
+        value = None if obj.value is None else (
+            {"a": sem_leaf(type(obj.value), obj.value.value)} if isinstance(obj.value, Atomic)
+            else stree(node.dt.node, obj.value))
+        return {"seq": [{"p": sem_leaf(CharacterString, obj.name)}, value]}
+    raise core.Infra("stree: " + node.k)
+
+
 def blank(v):
     """shape of a value tree: leaf payloads removed (malformed stream)"""
     if isinstance(v, dict):
@@ -635,6 +706,7 @@ def run_type(ctx, drv_reqs, node, cases):
                 ctx.fail("octets-reparse", case, "octets of %s do not parse back to the encoded tag list" % node.name,
                          type=node.name)
             dec, _obj2 = impl_decode(node, parsed, node.apci)
+            typed = stree(node, _obj2)
         except Exception as e:
             ctx.fail("decode-raises", dict(case, hex=case_hex),
                      "%s cannot decode what it encodes: %s: %s" % (node.name, type(e).__name__, e),
@@ -672,6 +744,9 @@ def run_type(ctx, drv_reqs, node, cases):
             d = dict(dec)
             d["re"] = {k: x for k, x in dec["re"].items() if k != "exc"}
             drv_reqs.append(({"op": "dec", "t": node.idx, "tags": enc["tags"], "pdu": node.apci}, d, case))
+            # octet level, typed: what the attributes MEAN (C01's vocabulary) and the octets again
+            drv_reqs.append(({"op": "typed", "t": node.idx, "hex": case_hex},
+                             {"r": "ok", "tv": typed, "re": dec["re"].get("hex", "err")}, case))
         recs.append((case, enc, dec))
     return recs
 
@@ -832,7 +907,7 @@ def run_slice(ctx, drv, nodes, extra, per_type_mal, rng, prefix=(), tag=""):
         by_type.append((node, recs))
     if drv:
         model = ask([r for r, _a, _c in reqs])
-        for stream in ("enc", "dec"):
+        for stream in ("enc", "dec", "typed"):
             sel = [(r, a, c, m) for (r, a, c), m in zip(reqs, model) if r["op"] == stream]
             if stream == "dec" and isinstance(ctx, NoOracle):
                 # ambiguous schemas read a leaf payload as another type: compare shapes only
